@@ -202,9 +202,9 @@ class Explorer(object):
             raise ToolError('worker failed: %s' % out[2])
         return out
 
-    def bound(self, ctx, factory, params, bound, max_execs):
+    def bound(self, ctx, factory, params, bound, max_execs, fresh=True):
         """One complete exploration at one preemption bound."""
-        if self.table is not None:
+        if self.table is not None and fresh:
             self.table.clear()
         res = Result()
         pending = [([], 0, None)]
@@ -250,7 +250,8 @@ class Explorer(object):
             pending.extend(left)
         return res
 
-    def explore(self, ctx, factory, params, bound, budget=None, label=''):
+    def explore(self, ctx, factory, params, bound, budget=None, label='',
+                fresh_table=True):
         """Explore all schedules of factory(params), iterating the preemption
         bound 0, 1, ..., bound (so the first counterexample found has the
         fewest preemptions) and stopping at the first bound with a
@@ -259,7 +260,11 @@ class Explorer(object):
         of the last bound explored."""
         res = None
         for b in range(0, bound + 1):
-            res = self.bound(ctx, factory, params, b, budget)
+            # fresh_table=False: the caller guarantees that state keys of
+            # different explorations cannot coincide (the scenario's identity
+            # is part of its state) and explores a single bound
+            res = self.bound(ctx, factory, params, b, budget,
+                             fresh_table or b > 0)
             ctx.count(res.execs)
             ctx.traces += res.execs
             ctx.transitions += res.points
